@@ -351,15 +351,25 @@ class Raw(E):
 
 
 @dataclass
+class Var:
+    """leading path name that is a VARIABLE: a FOR iterator / WITH alias / result alias /
+    GROUP USING alias in scope, else a function parameter"""
+
+    def __init__(self, name):
+        self.name = name
+
+
+@dataclass
 class Path(E):
-    """start: None (abbreviated path, uses the prefix) | TypeInfo;
+    """start: None (abbreviated path, uses the prefix) | TypeInfo | Var;
     steps: ('p', name) | ('lp', name) link property of the previous link step
            | ('b', linkname, TypeInfo) backlink with type intersection"""
     start: object
     steps: list
 
     def text(self, mod):
-        s = '' if self.start is None else qual(mod, self.start.key)
+        s = '' if self.start is None else (self.start.name if isinstance(self.start, Var)
+                                            else qual(mod, self.start.key))
         for st in self.steps:
             if st[0] == 'p':
                 s += f'.{st[1]}'
@@ -374,6 +384,15 @@ class Path(E):
         memo = env['vis']
         if self.start is None:
             tip = env['prefix']     # None: no known prefix -> weak refs below
+        elif isinstance(self.start, Var):
+            # `trace_Path`: an alias in scope wins (no ref recorded for it); otherwise
+            # `get_ref_name` maps a parameter name to its type, which is recorded
+            if self.start.name in env.get('aliases', {}):
+                tip = env['aliases'][self.start.name]
+            else:
+                tip = env['params'][self.start.name]
+                if isinstance(tip, TypeInfo):
+                    strong.add(('o', tip.key))
         else:
             tip = self.start
             strong.add(('o', tip.key))
@@ -564,6 +583,77 @@ class Shape(E):
         return strong, weak, self.t
 
 
+def _bind(env, var, tip):
+    return {**env, 'aliases': {**env.get('aliases', {}), var: tip if isinstance(tip, TypeInfo) else None}}
+
+
+@dataclass
+class ForE(E):
+    """(for v in <iterator> union <body>): `trace_For` binds `__alias__::v` to what the
+    iterator traces to (a sentinel when untyped) in a PRIVATE copy of the object index"""
+    var: str
+    it: E
+    body: E
+
+    def text(self, mod):
+        return f'(for {self.var} in {self.it.text(mod)} union {self.body.text(mod)})'
+
+    def refs(self, env):
+        s, w, tip = self.it.refs(env)
+        s2, w2, t2 = self.body.refs(_bind(env, self.var, tip))
+        return s | s2, w | w2, t2
+
+
+@dataclass
+class WithE(E):
+    """(with v := <bound> select <body>)"""
+    var: str
+    bound: E
+    body: E
+
+    def text(self, mod):
+        return f'(with {self.var} := {self.bound.text(mod)} select {self.body.text(mod)})'
+
+    def refs(self, env):
+        s, w, tip = self.bound.refs(env)
+        s2, w2, t2 = self.body.refs(_bind(env, self.var, tip))
+        return s | s2, w | w2, t2
+
+
+@dataclass
+class ResAlias(E):
+    """(select v := T filter <cond using v.ptr>)"""
+    var: str
+    t: object
+    cond: E
+
+    def text(self, mod):
+        return f'(select {self.var} := {qual(mod, self.t.key)} filter {self.cond.text(mod)})'
+
+    def refs(self, env):
+        s, w, _ = self.cond.refs({**_bind(env, self.var, self.t), 'prefix': self.t})
+        return s | {('o', self.t.key)}, w, self.t
+
+
+@dataclass
+class GroupE(E):
+    """(group T using v := .ptr by v)"""
+    t: object
+    var: str
+    pname: str
+
+    def text(self, mod):
+        return f'(group {qual(mod, self.t.key)} using {self.var} := .{self.pname} by {self.var})'
+
+    def refs(self, env):
+        s, w, _ = Path(None, [('p', self.pname)]).refs({**env, 'prefix': self.t})
+        return s | {('o', self.t.key)}, w, self.t
+
+
+# names deliberately shared between iterators / WITH aliases / function parameters / types
+SHARED_NAMES = ('x', 'u', 'item', 'a', 'v')
+
+
 @dataclass
 class Unknown(E):
     """<untypable object expression>.ptr : the tracer cannot type the first step of the path
@@ -622,6 +712,7 @@ class Gen:
         self.n = 0
         self.u = None
         self.feat = features or {}
+        self._pool_used = set()
 
     def fresh(self, p):
         self.n += 1
@@ -672,7 +763,15 @@ class Gen:
         nt = {'tiny': rng.randint(1, 3), 'small': rng.randint(2, 4), 'large': rng.randint(4, 7)}[self.size]
         memo = {}
         for i in range(nt):
-            t = TypeInfo(pm(), self.fresh('T'), abstract=self.chance(0.25), rank=i)
+            tname = self.fresh('T')
+            # ('a' is the parameter name of every str function: when such a function looks
+            # through a computable, the tracer resolves the names in the computable's expression
+            # with the function's parameters in scope, so a type called `a` would be captured)
+            free = [n for n in SHARED_NAMES if n not in self._pool_used and n != 'a']
+            if free and self.chance(0.12):
+                tname = rng.choice(free)       # a type called like iterators / parameters
+                self._pool_used.add(tname)
+            t = TypeInfo(pm(), tname, abstract=self.chance(0.25), rank=i)
             if u.types and self.chance(0.6):
                 k = 1 if self.chance(0.7) else 2
                 for _try in range(4):
@@ -822,6 +921,15 @@ class Gen:
             if not any(f.mod == f0.mod and f.name == f0.name and f.params[0][1] == 'int64' for f in u.fns):
                 u.fns.append(FnInfo(f0.mod, f0.name, [('a', 'int64')], 'str', Raw('<str>a'), len(u.fns)))
                 return
+        if u.types and self.chance(0.3):
+            # object-typed parameter named from the shared pool, used as leading path name
+            cands = [(t, pn) for t in u.types for pn in self._single_str_props(t)]
+            if cands:
+                t, pn = rng.choice(cands)
+                v = rng.choice(SHARED_NAMES)
+                u.fns.append(FnInfo(mod, self.fresh('of'), [(v, t)], 'optional str',
+                                    Path(Var(v), [('p', pn)]), len(u.fns)))
+                return
         name = self.fresh('fn')
         pty = rng.choice(['str', 'str'] + u.scalars)
         r = rng.random()
@@ -885,7 +993,7 @@ class Gen:
         if props:
             ch += ['prop', 'prop', 'concat']
         if links:
-            ch += ['nav', 'nav', 'lprop', 'countl', 'unknown', 'unknown']
+            ch += ['nav', 'nav', 'lprop', 'countl', 'unknown', 'unknown', 'for', 'for', 'with']
         if clinks:
             ch += ['countcl', 'countcl']
         fs = [f for f in u.fns if f.params[0][1] == 'str']
@@ -909,6 +1017,20 @@ class Gen:
                   and v.pi.computed is None]
             if qs:
                 return Path(None, [('p', l), ('p', rng.choice(qs))])
+            return Cast('str', Call(None, 'count', [Path(None, [('p', l)])]))
+        if c in ('for', 'with'):
+            # FOR iterator / WITH alias named from the shared pool, over a link or its target type
+            l = rng.choice(links)
+            tt = vis[l].pi.target
+            qs = [pn for pn, v in visible(tt, {}).items() if v.pi.kind == 'prop' and v.pi.target != 'int64'
+                  and v.pi.computed is None]
+            if qs:
+                var = rng.choice(SHARED_NAMES)
+                body = Path(Var(var), [('p', rng.choice(qs))])
+                if c == 'for':
+                    it = Path(None, [('p', l)]) if self.chance(0.6) else Path(tt, [])
+                    return Cast('str', Call(None, 'count', [ForE(var, it, body)]))
+                return Cast('str', Call(None, 'count', [WithE(var, Path(tt, []), body)]))
             return Cast('str', Call(None, 'count', [Path(None, [('p', l)])]))
         if c == 'lprop':
             l = rng.choice(links)
@@ -1081,10 +1203,12 @@ class Builder:
 
     def env(self, mod, prefix):
         return {'mod': mod, 'prefix': prefix, 'fns': self.fns, 'pointers': self.pointers,
-                'vis': self.vis, 'opt': set(), 'optw': set(), 'visited': set()}
+                'vis': self.vis, 'opt': set(), 'optw': set(), 'visited': set(), 'aliases': {},
+                'params': {}}
 
-    def trace(self, e: E, mod, prefix):
+    def trace(self, e: E, mod, prefix, params=None):
         env = self.env(mod, prefix)
+        env['params'] = dict(params or {})
         s, w, _ = e.refs(env)
         opt = env['opt'] - s
         return sorted(s), sorted(w), sorted(opt)
@@ -1230,7 +1354,7 @@ class Builder:
     def fn_node(self, f: FnInfo) -> Node:
         key = self.fn_key(f)
         loc = key[1]
-        s, w, opt = self.trace(f.body, f.mod, None)
+        s, w, opt = self.trace(f.body, f.mod, None, params={n: t for n, t in f.params})
         direct = [t.key for _, t in f.params if not isinstance(t, str)]
         sig = f'({self.fn_params_text(f, f.mod)}) -> {self.ty_text(f.ret, f.mod)} using ({f.body.text(f.mod)})'
         n = Node('function', f.mod, loc, loc, f.name, f'function {f.name}{sig}',
